@@ -89,7 +89,8 @@ func (c *fctx) instr(fr *frame, in ssa.Instruction, reach string, st *state) {
 	case *ssa.MakeInterface:
 		v := c.operand(fr, x.X)
 		b := c.S.Box(x.X.Type())
-		fr.vals[x] = val{t: fmt.Sprintf("(%s %s)", b.Box, c.termOf(v, "make interface"))}
+		vv := v
+		fr.vals[x] = val{t: fmt.Sprintf("(%s %s)", b.Box, c.termOf(v, "make interface")), dynT: x.X.Type(), dynV: &vv}
 	case *ssa.TypeAssert:
 		c.typeAssert(fr, x, reach)
 	case *ssa.Extract:
@@ -374,6 +375,19 @@ func (c *fctx) unop(fr *frame, x *ssa.UnOp, reach string, st *state) {
 // globalFacts: package-level error sentinels that are never reassigned are non-nil and keep their initial value.
 func (c *fctx) globalFacts(g *ssa.Global, st *state) {
 	elem := g.Type().(*types.Pointer).Elem()
+	if b, isB := types.Unalias(elem).Underlying().(*types.Basic); isB && b.Info()&types.IsInteger != 0 {
+		// an integer variable that is only ever assigned one constant, in its package initialiser
+		if cv, ok := c.P.GlobalInitConst(g); ok {
+			key := "G:" + g.String()
+			init := q("H0." + key)
+			c.region(&state{h: map[string]string{}}, key, "Int")
+			if !c.used["global-fact:"+key] {
+				c.used["global-fact:"+key] = true
+				c.assume(fmt.Sprintf("(= %s %s)", init, cv))
+			}
+		}
+		return
+	}
 	if !types.Identical(elem, types.Universe.Lookup("error").Type()) {
 		return
 	}
